@@ -106,5 +106,13 @@ struct SimLatch {
   }
 };
 
-// run `fn` on a fresh simulated thread (std::thread is intercepted)
+// Objects that must outlive the workload function (detached work may still touch them) are
+// allocated here and stay reachable from a global list, so a leak checker does not blame them.
+void keepAlive(void* p);
+template <typename T, typename... A>
+T& immortal(A&&... a) {
+  T* p = new T(static_cast<A&&>(a)...);
+  keepAlive(p);
+  return *p;
+}
 } // namespace hx
